@@ -360,6 +360,7 @@ func (t *Terminfo) TParm(s string, p ...interface{}) string {
 	)
 
 	skip := emit
+	nest := 0 // conditionals opened inside the part being skipped
 
 	for {
 
@@ -380,13 +381,15 @@ func (t *Terminfo) TParm(s string, p ...interface{}) string {
 			// XXX Error
 			break
 		}
-		if skip == toEnd {
-			if ch == ';' {
-				skip = emit
-			}
-			continue
-		} else if skip == toElse {
-			if ch == 'e' || ch == ';' {
+		if skip != emit {
+			// only the %e / %; of the conditional being skipped end
+			// the skip, not those of conditionals nested inside it
+			switch {
+			case ch == '?':
+				nest++
+			case ch == ';' && nest > 0:
+				nest--
+			case ch == ';', ch == 'e' && skip == toElse && nest == 0:
 				skip = emit
 			}
 			continue
